@@ -99,6 +99,10 @@ struct HistEnv {
 
 impl HistEnv {
     fn new(scratch: &Path) -> Self {
+        Self::with_history_size(scratch, 10)
+    }
+
+    fn with_history_size(scratch: &Path, history_size: usize) -> Self {
         let _ = std::fs::remove_dir_all(scratch);
         std::fs::create_dir_all(scratch.join("cache")).unwrap();
         let mut config = Config::default_with_paths(
@@ -107,7 +111,7 @@ impl HistEnv {
         config.no_rir_tals = true;
         config.exceptions = vec![scratch.join("exceptions.json")];
         config.validation_threads = 1;
-        config.history_size = 10;
+        config.history_size = history_size;
         let engine = Engine::new(&config, false).expect("engine");
         let history = SharedHistory::from_config(&config);
         let notify = NotifySender::new();
@@ -176,11 +180,21 @@ fn json_origins(doc: &Value, field: &str) -> BTreeSet<String> {
     }).collect()).unwrap_or_default()
 }
 
-const DATA: [&[(u32, u32)]; 3] = [
+// Every data set has a different number of items, so a response body tells
+// which one it carries.
+const DATA: [&[(u32, u32)]; 4] = [
     &[(64496, 1), (64496, 2), (64497, 3)],
     &[(64496, 1), (64497, 3), (64498, 4), (64498, 5)],
     &[(64499, 6), (64496, 2)],
+    &[(64500, 7), (64496, 2), (64497, 8), (64498, 4), (64499, 9)],
 ];
+
+/// Which data set a `/json` body carries.
+fn data_index(body: &[u8]) -> Option<usize> {
+    let doc: Value = serde_json::from_slice(body).ok()?;
+    let n = doc["roas"].as_array()?.len();
+    DATA.iter().position(|d| d.len() == n)
+}
 
 fn scenario_c15(scratch: PathBuf, found: Found, seed: u64) {
     sim::clock::set(1_760_000_000);
@@ -317,8 +331,11 @@ fn scenario_c15(scratch: PathBuf, found: Found, seed: u64) {
 
 fn scenario_c16(scratch: PathBuf, found: Found, seed: u64) {
     sim::clock::set(1_760_000_000);
-    let env = Arc::new(HistEnv::new(&scratch));
     let mut rng = Rng::new(seed);
+    // The validators must identify a version whatever the number of
+    // retained change sets is.
+    let history_size = *rng.pick(&[10usize, 10, 2, 1, 0]);
+    let env = Arc::new(HistEnv::with_history_size(&scratch, history_size));
     env.update(DATA[0]);
     // One to three further versions, several of them possibly within the
     // same second of the simulated clock.
@@ -326,12 +343,20 @@ fn scenario_c16(scratch: PathBuf, found: Found, seed: u64) {
     let advances: Vec<i64> = (0..n_updates).map(|_| {
         *rng.pick(&[0i64, 0, 0, 1, 3])
     }).collect();
+    // Version k carries DATA[k]. `started` is the newest version whose
+    // installation has begun, `installed` the newest completely installed.
+    let started = Arc::new(std::sync::atomic::AtomicUsize::new(0));
+    let installed = Arc::new(std::sync::atomic::AtomicUsize::new(0));
     let updater = {
         let env = env.clone();
+        let started = started.clone();
+        let installed = installed.clone();
         shuttle::thread::spawn(move || {
             for (i, adv) in advances.into_iter().enumerate() {
                 sim::clock::advance(adv);
-                env.update(DATA[(i + 1) % DATA.len()]);
+                started.store(i + 1, std::sync::atomic::Ordering::SeqCst);
+                env.update(DATA[i + 1]);
+                installed.store(i + 1, std::sync::atomic::Ordering::SeqCst);
             }
         })
     };
@@ -340,12 +365,15 @@ fn scenario_c16(scratch: PathBuf, found: Found, seed: u64) {
     for _ in 0..clients {
         let env = env.clone();
         let found = found.clone();
+        let started = started.clone();
+        let installed = installed.clone();
         let variant = rng.below(3);
         let rounds = 1 + rng.usize(3);
         handles.push(shuttle::thread::spawn(move || {
             for _ in 0..rounds {
                 // Learn the validators of whatever version is served now.
-                let (_, headers0, _) = env.get("/json", &[]);
+                let (_, headers0, body0) = env.get("/json", &[]);
+                let have = data_index(&body0);
                 let etag0 = headers0.get("etag").cloned().unwrap_or_default();
                 let lm0 = headers0.get("last-modified").cloned()
                     .unwrap_or_default();
@@ -356,8 +384,27 @@ fn scenario_c16(scratch: PathBuf, found: Found, seed: u64) {
                               ("If-Modified-Since", &lm0)],
                 };
                 for _ in 0..2 {
+                    let lo = installed.load(std::sync::atomic::Ordering::SeqCst);
                     let (status, resp, _) = env.get("/json", &headers);
+                    let hi = started.load(std::sync::atomic::Ordering::SeqCst);
                     if status == 304 {
+                        // Whatever the validators look like: the data the
+                        // client holds must be the data of a version that
+                        // was served at some point of this request.
+                        if let Some(have) = have {
+                            if !(lo..=hi).contains(&have) {
+                                found.lock().unwrap().push((
+                                    "stale-304-content".into(),
+                                    format!(
+                                        "304 Not Modified for validators \
+                                         {headers:?} learned with data set \
+                                         {have} while only data sets \
+                                         {lo}..={hi} were served during the \
+                                         request"
+                                    )
+                                ));
+                            }
+                        }
                         let etag = resp.get("etag").cloned()
                             .unwrap_or_default();
                         if etag != etag0 {
